@@ -212,7 +212,12 @@ static int uriCompose(const char *scheme, const char *user, const char *pass, co
 	}
 
 	if (host != NULL) {
-		count += KSI_snprintf(buf + count, len - count, "%s", host);
+		/* The URI parser strips the brackets of an IPv6 literal - put them back. */
+		if (strchr(host, ':') != NULL && host[0] != '[') {
+			count += KSI_snprintf(buf + count, len - count, "[%s]", host);
+		} else {
+			count += KSI_snprintf(buf + count, len - count, "%s", host);
+		}
 	}
 
 	if (port != 0) {
